@@ -179,3 +179,64 @@ def c02(ck):
         ck.extra.setdefault("bounds", {})[fam] = consts
     ck.extra["model_dangerous_histories"] = total_danger
     ck.exhaustive = True
+
+
+def text_cases(ck, alphabets, maxlen, timeout=1500):
+    cases = []
+    for a in alphabets:
+        r = ck.tlc("GenText", cfg(constants={"AlphaName": '"%s"' % a, "MaxLen": maxlen}), timeout=timeout)
+        ck.tlc_ok(r, "GenText")
+        cases += r.cases
+    seen = {}
+    for c in cases:
+        seen.setdefault(c["text"], c)
+    out = list(seen.values())
+    for c in out:
+        c["id"] = "t:" + c["text"]
+        c["src"] = c["text"]
+    return out
+
+
+@check("C05")
+def c05(ck):
+    ck.rule = ("every string of length <= MaxLen over 5 alphabets of 14 characters that exercise every scanner/reader "
+               "branch (brackets, reader macros, string/raw-string quotes, escapes, U+029E, comments, placeholders, "
+               "constructors, numbers), classified by Text.tla; each sent to READ (nil/loaded env, with/without "
+               "module), READWithPreamble, Read_str (nil/empty/populated placeholder map), read-string, then PRINT; "
+               "violation = panic or hang; distinct = distinct texts")
+    alph = ["brackets", "strings", "macros", "escapes", "numbers"]
+    cases = text_cases(ck, alph, 4 if ck.quick else 5)
+    ck.replay(cases, args=["-prop", "C05"])
+    ck.exhaustive = True
+    ck.extra["alphabets"] = alph
+
+
+@check("C16")
+def c16(ck):
+    ck.rule = ("every TOKEN sequence of length <= MaxLen over two 14-token alphabets (all bracket kinds, reader "
+               "macros, strings/raw strings containing brackets, comment) - which contains every well-formed "
+               "expression of that size cut after every token and extended by every closer - plus every character "
+               "string of length <= 4 over the bracket alphabets; Text.tla classifies each as complete / incomplete "
+               "with the innermost closer / malformed; READ and the REPL's own multiLine classifier must agree")
+    cases = text_cases(ck, ["tokens", "tokens2"], 4 if ck.quick else 5)
+    cases += text_cases(ck, ["brackets", "macros"], 4)
+    seen = {}
+    for c in cases:
+        seen.setdefault(c["text"], c)
+    ck.replay(list(seen.values()), args=["-prop", "C16"])
+    ck.exhaustive = True
+
+
+@check("C06")
+def c06(ck):
+    ck.rule = ("value direction: every string of length <= MaxLen over a 12-character alphabet of everything the "
+               "printer/reader treat specially, placed at top level / in a list / as map key / as map value / as set "
+               "member, plus JSON-looking seeds, keywords/symbols/ints/nested collections; PRINT then READ and "
+               "(read-string (pr-str v)) must give back v. Text direction: every accepted, float-free text of the "
+               "C05/C16 enumerations: READ, PRINT, READ again equal, and equal to the value Text.tla reads. The model "
+               "itself is checked for every case (Assert in the Next action)")
+    consts = {"MaxLen": 3 if ck.quick else 4}
+    gen_and_replay(ck, "GenC06", consts, timeout=1500)
+    cases = text_cases(ck, ["escapes", "strings", "tokens", "numbers"] + ([] if ck.quick else ["brackets", "macros", "tokens2"]), 4)
+    ck.replay(cases, args=["-prop", "C06"])
+    ck.exhaustive = True
